@@ -1,0 +1,27 @@
+//go:build verif
+
+// Exports used only by the external verification harness (build tag `verif`).
+
+package wal
+
+import (
+	"time"
+
+	time2 "github.com/oxia-db/oxia/common/time"
+)
+
+// VerifNewWal opens a WAL with an injected clock and trimmer check interval.
+func VerifNewWal(namespace string, shard int64, options *FactoryOptions, commitOffsetProvider CommitOffsetProvider,
+	clock time2.Clock, trimmerCheckInterval time.Duration) (Wal, error) {
+	return newWal(namespace, shard, options, commitOffsetProvider, clock, trimmerCheckInterval)
+}
+
+// VerifTrimNow runs one trimmer round synchronously.
+func VerifTrimNow(w Wal) error {
+	return w.(*wal).trimmer.(*trimmer).doTrim()
+}
+
+// VerifLastAppended returns the last appended (possibly unsynced) offset.
+func VerifLastAppended(w Wal) int64 {
+	return w.(*wal).lastAppendedOffset.Load()
+}
